@@ -127,9 +127,14 @@ where
         writer,
         "    let credentials = self.credentials.as_ref().map(|(u, p)| (u.as_str(), p.as_str()));"
     )?;
+    let helper = if operation.output.is_some() {
+        "send_soap_request_using_client"
+    } else {
+        "send_one_way_soap_request_using_client"
+    };
     writeln!(
         writer,
-        "    helpers::send_soap_request_using_client(&self.client, &self.location, credentials, req).await"
+        "    helpers::{helper}(&self.client, &self.location, credentials, req).await"
     )?;
 
     writeln!(writer, "}}")?;
